@@ -87,6 +87,13 @@ def templates(tier="quick"):
                        Stmt("q", ex=["p1", "p2"]), Stmt("r", ex=["p3", "p4", "q"])],
                 pools={"two": 2})
     T += _mk("pool_depth2", [v], tags=["pool"], depth=min(d, 2), js=(2, 4), with_rm=False, max_fault_stmts=2)
+    # load-limited capacity (-l): above the limit only one command at a time, below it up to the limit
+    lops = standard_ops([v], {}, js=(4,), with_rm=False, with_faults=False, edits_during=False)
+    for load in ("0", "1.5", "9"):
+        lops.append(ninja_op(j=4, flags=["-l", "2"], env={"VERIF_LOADAVG": load}, label="ninja -j4 -l2 (load average %s)" % load))
+        lops.append(ninja_op(j=4, flags=["-l", "2"], env={"VERIF_LOADAVG": load}, faults={"p1": {"code": 1}}, k=0,
+                             label="ninja -j4 -k0 -l2 (load average %s) faults=p1:1" % load))
+    T.append(scenario("load_limit/fresh", "template", [v], ops=lops, init=[], depth=1, tags=["pool", "load", "fresh"]))
 
     # T12 console pool
     v = Variant("v0", [Stmt("c1", ex=["s"], pool="console"), Stmt("c2", ex=["t"], pool="console"),
